@@ -234,7 +234,8 @@ def _check_main(ctx, res) -> None:
     # the generic 'return expected == node' for non-AST values and final accept
     # ---- R19.4
     gch = idx.need_func("rope.refactor.restructure._ChangeComputer.get_changed")
-    cfg = CFG(gch.node)
+    from . import common as _common
+    cfg = CFG(_common.inline_private_calls(idx, gch, keep=("_is_expression",)))  # (a branch of the method may live in a private step)
     adds = [n for n in cfg.nodes if n.kind == "stmt" and any(call_name(c) == "add_change" for c in calls_in(n.ast))]
     if not adds:
         raise AnalysisError("anchor=_ChangeComputer.get_changed add_change call not found")
